@@ -28,6 +28,7 @@ From Soy Require Import Model.Bytes Model.Num Model.Values Model.Ast Model.Token
 From Soy Require Import Model.Outcome Model.MsgId Proofs.MsgIdProofs.
 From Soy Require Import Model.Lexer Model.Parser Proofs.LexPrintMain Proofs.LexParseText Proofs.LexPrintCmd Proofs.PrintCmdText.
 From Soy Require Import Proofs.ParserProofs Proofs.CmdParserFuel Proofs.PrintCmdFile.
+From Soy Require Import Spec.LexKeyword Proofs.LexPrint Proofs.LexKeywordProofs.
 From Soy Require Import Model.RawText Model.Parser Model.AstPrintCmd Spec.CmdSyntax Proofs.CmdRoundtripBase Proofs.CmdRoundtripRules Proofs.CmdRoundtrip.
 Open Scope N_scope.
 
@@ -121,6 +122,37 @@ Theorem C17_parser_budget_irrelevant : forall inlen lexq unq efuel f f' until s,
   item_list inlen lexq unq parse_expr efuel f until s = item_list inlen lexq unq parse_expr efuel f' until s.
 Proof. exact item_list_agree. Qed.
 Print Assumptions C17_parser_budget_irrelevant.
+
+(* ---- the keyword clause of lex_ok, as a decidable predicate ----
+   lex_ok demands of every identifier the printer writes bare (function names, the first segment of a global's
+   dotted name, directive names) that it is not an entry of the scanner's keyword table: a keyword printed bare is
+   read back as its own item type (C17_ex_keyword_name: and() does not parse back).  The clause is the boolean
+   function c17_kw_clause (Spec/LexKeyword.v) over the regenerated table: an identifier satisfies lex_ok's demand
+   exactly when it has the shape of a word and c17_not_keyword holds, and lex_ok / lex_ok_print imply the clause
+   for the whole tree.  The C17 harness evaluates c17_kw_clause (the extracted definition) on every tree the real
+   parser returns; a parsed tree never has a keyword in these places, because the scanner never sends one as an
+   identifier item (evidence: histogram lex_ok-keyword-clause). *)
+Theorem C17_identifier_keyword_clause : forall w, plain_word w <-> word_shape w /\ c17_not_keyword w = true.
+Proof. exact plain_word_iff. Qed.
+Print Assumptions C17_identifier_keyword_clause.
+
+Theorem C17_keyword_clause : forall e, lex_ok e -> c17_kw_clause e = true.
+Proof. exact lex_ok_kw_clause. Qed.
+Print Assumptions C17_keyword_clause.
+
+Theorem C17_keyword_clause_print : forall n, lex_ok_print n -> c17_kw_clause n = true.
+Proof. exact lex_ok_print_kw_clause. Qed.
+Print Assumptions C17_keyword_clause_print.
+
+(* the clause is needed: a function named like a keyword prints as text that the scanner reads differently *)
+Example C17_ex_keyword_name :
+  c17_kw_clause (NFunc 0 (b "and") []) = false /\ c17_kw_clause (NFunc 0 (b "round") [NGlobal 0 (b "a.and") (VNull)]) = true /\
+  print_node (NFunc 0 (b "and") []) = Some (b "and()") /\
+  match lex_items is_letter_tbl is_digit_tbl (lex_budget (b "and()")) true (b "and()") with
+  | Ok items => match po_result (soy_expr 5 items) with POk _ _ => False | _ => True end
+  | _ => False
+  end.
+Proof. split; [vm_compute; reflexivity|]. split; [vm_compute; reflexivity|]. split; [vm_compute; reflexivity|]. vm_compute. exact I. Qed.
 
 (* two such print commands that print the same STRING are the same print command up to positions *)
 Theorem C17_print_command_text_injective : forall n1 n2 txt,
